@@ -113,6 +113,9 @@ def plans(prop, tier):
             for e in ('ret', 'exc', 'bexc', 'unreb', 'unreb2', 'badret'):
                 P.append((k, False, e, 0, ('pause',) if e in ('ret', 'exc') else ()))
             P.append((k, False, 'slow', 0, (), None, 'poll'))
+            if k == 'process':
+                for e in ('unreb', 'unreb2', 'badret', 'ret'):
+                    P.append((k, False, e, 0, (), None, 'alive'))      # death observed through is_alive() only (no wait())
             P.append((k, True, 'ret', 2, ('pause',)))
         for k in ('process', 'remote'):
             P.append((k, False, 'ret', 0, ('sigkill', 'sigterm')))
@@ -142,9 +145,9 @@ def plans(prop, tier):
 def signature(prop, clauses, rec):
     s, o = rec['scn'], rec['obs']
     rd = o['reads'][0] if o['reads'] else {'has_error': 'na', 'error': 'na', 'result': 'na'}
-    return '%s|%s|%s|pers=%s|ending=%s|fault=%s|at=%s:%s|in_target=%s(%s)|finished=%s|dead=%s|he=%s|err=%s|res=%s|us=%s|stream=%s' % (
+    return '%s|%s|%s|pers=%s|ending=%s|fault=%s|at=%s:%s|in_target=%s(%s)|in_work=%s|finished=%s|dead=%s|he=%s|err=%s|res=%s|us=%s|stream=%s' % (
         prop, '+'.join(sorted(clauses)), s['kind'], s['persistent'], s['ending'], s['fault'], s['file'], s['func'],
-        s['in_target'], s.get('region', 'none'), s['target_finished'], o['dead_observed'], rd['has_error'], rd['error'], rd['result'], o['us_end'],
+        s['in_target'], s.get('region', 'none'), s.get('in_work', 'F'), s['target_finished'], o['dead_observed'], rd['has_error'], rd['error'], rd['result'], o['us_end'],
         o['stream']['end'])
 
 
